@@ -26,6 +26,7 @@ def load_event(s):
     e.failure = bool(data['failure'])
     e.notify = bool(data['notify'])
     e.channels = tuple(data['channels'])
+    hash(e.channels)  # channels are dictionary keys for the dispatcher: TypeError if a peer sends unhashable ones
 
     for k, v in dict(data['meta']).items():
         if k.startswith('__') or k in META_EXCLUDE:
